@@ -221,12 +221,12 @@ def clear():
     props_marker.clear_caches()
 
 
-def stream_smark(ctx: Ctx, n_pairs: int, texts=None, with_parse=True, with_only=True, with_eval=True, only_rate=0.3):
+def stream_smark(ctx: Ctx, n_pairs: int, texts=None, with_parse=True, with_only=True, with_eval=True, only_rate=0.3, n_parse=None):
     from packaging.markers import Marker
     from dep_logic.markers import parse_marker
     import props_marker as pm
     rng = random.Random(ctx.seed + 101)
-    texts = texts or (pm.CORPUS_TEXTS + pm.gen_texts(ctx, max(40, n_pairs // 3), salt=55))
+    texts = texts or (pm.CORPUS_TEXTS + pm.gen_texts(ctx, max(40, n_pairs // 3, (n_parse or 0) // 2), salt=55))
     parsed = []
     for t in texts:
         try:
@@ -240,7 +240,7 @@ def stream_smark(ctx: Ctx, n_pairs: int, texts=None, with_parse=True, with_only=
 
     # parse
     if with_parse:
-        for t, _ in parsed[: max(30, n_pairs // 4)]:
+        for t, _ in parsed[: (n_parse or max(30, n_pairs // 4))]:
             clear()
             try:
                 tree = Marker(t)._markers
